@@ -179,7 +179,7 @@ def overlay(prog, rep):
             rep.undecided("OVERLAY", fi.short, "per-key handling with a loop of its own", f"`{norm(nl).splitlines()[0][:60]}`", fi.loc(nl))
         return
     env = Env(fi, prog, inline_locals=False)
-    sums, _ = summarize(fi=None, body=lp.body, env=env)
+    sums, _ = summarize(fi=None, body=lp.body, env=env, dnf=True)
     A, B = Form.atom(f"{a}[{k}]"), Form.atom(f"{b}[{k}]")
     rep.unit("paths", f"_merge loop body: {len(sums)} paths")
     for s in sums:
@@ -213,6 +213,10 @@ def overlay(prog, rep):
             rep.check(wrote in (None, B) and not rec, "OVERLAY", fi.short, "equal leaf", "left as is", f"equal leaves are rewritten as {wrote!r}", fi.loc(lp))
         elif present:
             rep.check(wrote == B and not rec, "OVERLAY", fi.short, "user overrides default", f"{a}[{k}] = {b}[{k}]", f"the user's value does not replace the default (`{a}[{k}]` := {wrote!r})", fi.loc(lp))
+            # ... and a default TABLE is replaced as a whole only by something that is not a table (or it is not a table itself)
+            not_both = (f"isinstance({a}[{k}], dict)", False) in s.opaque or (f"isinstance({b}[{k}], dict)", False) in s.opaque
+            if wrote == B and not not_both:
+                rep.violation("OVERLAY", fi.short, ("table replaced wholesale: " + cons)[:90], f"on the path {cons} the default `{a}[{k}]` is replaced by the user's `{b}[{k}]` although nothing on the path rules out that both are tables: a user table that takes this path (e.g. an empty one, as the first-run template writes for every section) wipes out every default of that section", fi.loc(lp), expected="two tables are always merged key by key", found=cons)
         elif wrote is None and not rec:
             rep.violation("OVERLAY", fi.short, cons[:90], f"a key of the user's document is skipped without being merged on the path {cons}: the user's setting (e.g. a falsy value such as 0, false or an empty table) silently loses against the default", fi.loc(lp), expected="every key of the second argument is copied, merged recursively, or equal already", found=cons)
         else:
@@ -290,6 +294,13 @@ def _comment_rule(prog, fi):
                     # X if (A and B) else Y  ==  (X if B else Y) if A else Y
                     rest = t.values[1] if len(t.values) == 2 else ast.BoolOp(op=ast.And(), values=t.values[1:])
                     e = ast.IfExp(test=t.values[0], body=ast.IfExp(test=rest, body=e.body, orelse=e.orelse), orelse=e.orelse)
+                elif isinstance(t, ast.BoolOp) and isinstance(t.op, ast.Or) and len(t.values) >= 2:
+                    # X if (A or B) else Y  ==  X if A else (X if B else Y)
+                    rest = t.values[1] if len(t.values) == 2 else ast.BoolOp(op=ast.Or(), values=t.values[1:])
+                    e = ast.IfExp(test=t.values[0], body=e.body, orelse=ast.IfExp(test=rest, body=e.body, orelse=e.orelse))
+                elif isinstance(t, ast.UnaryOp) and isinstance(t.op, ast.Not) and isinstance(t.operand, ast.BoolOp):
+                    e = ast.IfExp(test=t.operand, body=e.orelse, orelse=e.body)
+                    return expand(e, conds)
                 for pol, br in ((True, e.body), (False, e.orelse)):
                     ps = PathSummary()
                     _expand_test(e.test, pol, fi, env, ps, ps.state)
@@ -366,6 +377,7 @@ def check(prog, rep):
 
 
 VARIANTS = [
+    ("B empty user tables are not descended into", "aw_core/config.py", "            if isinstance(a[key], dict) and isinstance(b[key], dict):", "            if b[key] and isinstance(a[key], dict) and isinstance(b[key], dict):", "OVERLAY"),
     ("B user integers for float defaults are converted with float()", "aw_core/config.py", "            else:\n                a[key] = b[key]\n        else:", "            elif isinstance(a[key], float) and isinstance(b[key], int):\n                a[key] = float(b[key])\n            else:\n                a[key] = b[key]\n        else:", "OVERLAY"),
     ("B arrays present in both documents are merged position by position", "aw_core/config.py", "            elif a[key] == b[key]:\n                pass  # same leaf value\n", "            elif isinstance(a[key], list) and isinstance(b[key], list):\n                for i, item in enumerate(b[key]):\n                    if i < len(a[key]):\n                        a[key][i] = item\n                    else:\n                        a[key].append(item)\n            elif a[key] == b[key]:\n                pass  # same leaf value\n", "OVERLAY"),
     ("B write before the existence test", C, "    # Override defaults from existing config file\n    if os.path.isfile(config_file_path):\n        with open(config_file_path) as f:\n            config = f.read()\n        config_toml = tomlkit.parse(config)\n    else:", "    if not default_config_toml:\n        with open(config_file_path, \"w\") as f:\n            f.write(default_config)\n    if os.path.isfile(config_file_path):\n        with open(config_file_path) as f:\n            config = f.read()\n        config_toml = tomlkit.parse(config)\n    else:", "NO-CLOBBER"),
